@@ -1,6 +1,6 @@
 (* BMMFacts.v -- lemmas about Model/BMM.v and Model/ArrayOps.v *)
-From Coq Require Import Lia ZArith List Bool Arith PeanoNat.
-From Ctg Require Import Base BMM ArrayOps.
+From Coq Require Import Lia ZArith List Bool Arith PeanoNat Permutation Sorted.
+From Ctg Require Import Base BMM ArrayOps BaseFacts.
 Import ListNotations.
 
 Lemma nprod_cons x l : nprod (x :: l) = x * nprod l.
@@ -294,4 +294,1527 @@ Proof.
   destruct (is_perm p (length (tshape t))); [|discriminate].
   inversion H; subst t'. clear H.
   rewrite tget_tbuild by exact Hv. reflexivity.
+Qed.
+
+(* ================================================================== *)
+(* PART 2: structure of the plan parsers (all inputs) *)
+
+
+(* the labels of an operand that carry a dimension different from 1, in order, with repeats *)
+Definition nonsing (l : list (nat * nat)) : list nat :=
+  map fst (filter (fun p => negb (Nat.eqb (snd p) 1)) l).
+
+(* ================================================================== *)
+(* generic list helpers                                                *)
+Lemma NoDup_app_intro {A} (l1 l2 : list A) :
+  NoDup l1 -> NoDup l2 -> (forall x, In x l1 -> ~ In x l2) -> NoDup (l1 ++ l2).
+Proof.
+  induction l1 as [|a l1 IH]; intros N1 N2 Hd; cbn [app]; [exact N2|].
+  inversion N1 as [|? ? Hn N1']; subst. constructor.
+  - rewrite in_app_iff. intros [H|H]; [exact (Hn H)|].
+    apply (Hd a); [left; reflexivity|exact H].
+  - apply IH; [exact N1'|exact N2|]. intros x Hx. apply Hd. right; exact Hx.
+Qed.
+
+Lemma NoDup_app_elim {A} (l1 l2 : list A) :
+  NoDup (l1 ++ l2) -> NoDup l1 /\ NoDup l2 /\ (forall x, In x l1 -> ~ In x l2).
+Proof.
+  induction l1 as [|a l1 IH]; cbn [app]; intros N.
+  - split; [constructor|]. split; [exact N|]. intros x [].
+  - inversion N as [|? ? Hn N']; subst. destruct (IH N') as (N1 & N2 & Hd).
+    rewrite in_app_iff in Hn. split; [|split].
+    + constructor; [tauto|exact N1].
+    + exact N2.
+    + intros x [<-|Hx]; [tauto|apply Hd, Hx].
+Qed.
+
+Lemma pf_list_eqb_eq : forall l1 l2 : list nat, eqb l1 l2 = true -> l1 = l2.
+Proof.
+  induction l1 as [|x l1 IH]; intros [|y l2] H; try reflexivity; try discriminate H.
+  change (Nat.eqb x y && eqb l1 l2 = true) in H.
+  apply andb_true_iff in H. destruct H as [H1 H2].
+  apply Nat.eqb_eq in H1. subst y. f_equal. apply IH, H2.
+Qed.
+
+(* ================================================================== *)
+(* A. unique                                                           *)
+Lemma unique_acc_in x l : forall seen,
+  In x (unique_acc seen l) <-> In x l /\ ~ In x seen.
+Proof.
+  induction l as [|y l IH]; intros seen; cbn [unique_acc].
+  - cbn [In]. tauto.
+  - destruct (memb y seen) eqn:E.
+    + apply memb_In in E. rewrite IH. cbn [In]. split; [tauto|].
+      intros [[->|H] Hn]; tauto.
+    + apply memb_false in E. cbn [In]. rewrite IH. cbn [In].
+      destruct (Nat.eq_dec y x) as [->|Hne]; tauto.
+Qed.
+
+Lemma unique_acc_nodup l : forall seen, NoDup (unique_acc seen l).
+Proof.
+  induction l as [|y l IH]; intros seen; cbn [unique_acc]; [constructor|].
+  destruct (memb y seen) eqn:E; [apply IH|].
+  constructor; [|apply IH].
+  rewrite unique_acc_in. cbn [In]. tauto.
+Qed.
+
+Lemma unique_in x l : In x (unique l) <-> In x l.
+Proof. unfold unique. rewrite unique_acc_in. cbn [In]. tauto. Qed.
+
+Lemma unique_nodup l : NoDup (unique l).
+Proof. apply unique_acc_nodup. Qed.
+
+(* ================================================================== *)
+(* B. index classification of the two scanning loops                   *)
+Definition P_bat (b_term out : str) (ix : nat) : bool := memb ix b_term && memb ix out.
+Definition P_con (b_term out : str) (ix : nat) : bool := memb ix b_term && negb (memb ix out).
+Definition P_keep (b_term out : str) (ix : nat) : bool := negb (memb ix b_term) && memb ix out.
+Definition P_bkeep (a_term out : str) (ix : nat) : bool := negb (memb ix a_term) && memb ix out.
+
+Lemma nonsing_cons_one ix d r : Nat.eqb d 1 = true -> nonsing ((ix, d) :: r) = nonsing r.
+Proof. intros E. unfold nonsing. cbn [filter snd]. rewrite E. reflexivity. Qed.
+
+Lemma nonsing_cons_big ix d r : Nat.eqb d 1 = false -> nonsing ((ix, d) :: r) = ix :: nonsing r.
+Proof. intros E. unfold nonsing. cbn [filter snd]. rewrite E. reflexivity. Qed.
+
+Lemma nonsing_in_term ix t s : In ix (nonsing (combine t s)) -> In ix t.
+Proof.
+  unfold nonsing. intros H. apply in_map_iff in H. destruct H as ([i d] & E & H).
+  cbn [fst] in E. subst i. apply filter_In in H. destruct H as [H _].
+  apply in_combine_l in H. exact H.
+Qed.
+
+Lemma scan_a_spec b_term out l : forall bat con keep sizes sing seen bat' con' keep' sizes' sing',
+  scan_a b_term out l bat con keep sizes sing seen = Some (bat', con', keep', sizes', sing') ->
+  bat' = bat ++ filter (P_bat b_term out) (unique_acc seen (nonsing l)) /\
+  con' = con ++ filter (P_con b_term out) (unique_acc seen (nonsing l)) /\
+  keep' = keep ++ filter (P_keep b_term out) (unique_acc seen (nonsing l)).
+Proof.
+  induction l as [|[ix d] r IH]; intros bat con keep sizes sing seen bat' con' keep' sizes' sing' H;
+    cbn [scan_a] in H.
+  - inversion H; subst. cbn. rewrite !app_nil_r. auto.
+  - destruct (Nat.eqb d 1) eqn:Ed.
+    + rewrite (nonsing_cons_one ix d r Ed). eapply IH. exact H.
+    + rewrite (nonsing_cons_big ix d r Ed). cbn [unique_acc].
+      destruct (negb (Nat.eqb (lget0 ix match lget ix sizes with Some _ => sizes | None => lset ix d sizes end) d));
+        [discriminate H|].
+      destruct (memb ix seen) eqn:Es; [eapply IH; exact H|].
+      cbn [filter]. unfold P_bat at 1, P_con at 1, P_keep at 1.
+      destruct (memb ix b_term) eqn:Eb; destruct (memb ix out) eqn:Eo; cbn [andb negb];
+        apply IH in H; destruct H as (H1 & H2 & H3); subst bat' con' keep';
+        rewrite <- ?app_assoc; cbn [app]; auto.
+Qed.
+
+Lemma scan_b_spec a_term out l : forall keep sizes sing seen keep' sizes' sing',
+  scan_b a_term out l keep sizes sing seen = Some (keep', sizes', sing') ->
+  keep' = keep ++ filter (P_bkeep a_term out) (unique_acc seen (nonsing l)).
+Proof.
+  induction l as [|[ix d] r IH]; intros keep sizes sing seen keep' sizes' sing' H;
+    cbn [scan_b] in H.
+  - inversion H; subst. cbn. rewrite app_nil_r. reflexivity.
+  - destruct (Nat.eqb d 1) eqn:Ed.
+    + rewrite (nonsing_cons_one ix d r Ed). eapply IH. exact H.
+    + rewrite (nonsing_cons_big ix d r Ed). cbn [unique_acc].
+      destruct (negb (Nat.eqb (lget0 ix match lget ix sizes with Some _ => sizes | None => lset ix d sizes end) d));
+        [discriminate H|].
+      destruct (memb ix seen) eqn:Es; [eapply IH; exact H|].
+      cbn [filter]. unfold P_bkeep at 1.
+      destruct (negb (memb ix a_term) && memb ix out) eqn:Ep;
+        apply IH in H; subst keep'; rewrite <- ?app_assoc; cbn [app]; reflexivity.
+Qed.
+
+(* ================================================================== *)
+(* C. classify                                                          *)
+Lemma classify_partition a_term shape_a b_term shape_b out c :
+  classify a_term shape_a b_term shape_b out = Some c ->
+  let A := nonsing (combine a_term shape_a) in
+  let B := nonsing (combine b_term shape_b) in
+  c_bat c = filter (P_bat b_term out) (unique A) /\
+  c_con c = filter (P_con b_term out) (unique A) /\
+  c_akeep c = filter (P_keep b_term out) (unique A) /\
+  c_bkeep c = filter (P_bkeep a_term out) (unique B).
+Proof.
+  unfold classify. intros H.
+  destruct (scan_a b_term out (combine a_term shape_a) [] [] [] [] [] [])
+    as [[[[[bat con] akeep] sizes] sing]|] eqn:Ea; [|discriminate H].
+  destruct (scan_b a_term out (combine b_term shape_b) [] sizes sing [])
+    as [[[bkeep sizes'] sing']|] eqn:Eb; [|discriminate H].
+  inversion H; subst c. cbn [c_bat c_con c_akeep c_bkeep].
+  apply scan_a_spec in Ea. destruct Ea as (H1 & H2 & H3).
+  apply scan_b_spec in Eb. cbn [app] in *. unfold unique. auto.
+Qed.
+
+Lemma classify_in a_term shape_a b_term shape_b out c :
+  classify a_term shape_a b_term shape_b out = Some c ->
+  let A := nonsing (combine a_term shape_a) in
+  let B := nonsing (combine b_term shape_b) in
+  forall ix,
+  (In ix (c_bat c) <-> In ix A /\ In ix b_term /\ In ix out) /\
+  (In ix (c_con c) <-> In ix A /\ In ix b_term /\ ~ In ix out) /\
+  (In ix (c_akeep c) <-> In ix A /\ ~ In ix b_term /\ In ix out) /\
+  (In ix (c_bkeep c) <-> In ix B /\ ~ In ix a_term /\ In ix out).
+Proof.
+  intros H A B ix. apply classify_partition in H. cbv zeta in H.
+  destruct H as (H1 & H2 & H3 & H4). rewrite H1, H2, H3, H4.
+  fold A B. rewrite !filter_In, !unique_in.
+  unfold P_bat, P_con, P_keep, P_bkeep.
+  rewrite !andb_true_iff, !negb_true_iff, !memb_In, !memb_false. tauto.
+Qed.
+
+Lemma classify_nodup a_term shape_a b_term shape_b out c :
+  classify a_term shape_a b_term shape_b out = Some c ->
+  NoDup (c_bat c ++ c_con c ++ c_akeep c ++ c_bkeep c).
+Proof.
+  intros H. pose proof (classify_in _ _ _ _ _ _ H) as Hin. cbv zeta in Hin.
+  apply classify_partition in H. cbv zeta in H.
+  destruct H as (H1 & H2 & H3 & H4).
+  apply NoDup_app_intro; [| apply NoDup_app_intro; [| apply NoDup_app_intro | ] | ].
+  - rewrite H1. apply NoDup_filter, unique_nodup.
+  - rewrite H2. apply NoDup_filter, unique_nodup.
+  - rewrite H3. apply NoDup_filter, unique_nodup.
+  - rewrite H4. apply NoDup_filter, unique_nodup.
+  - intros x Hx Hx'. apply Hin in Hx. apply Hin in Hx'.
+    destruct Hx as (HA & _). apply nonsing_in_term in HA. tauto.
+  - intros x Hx Hx'. apply in_app_iff in Hx'. apply Hin in Hx.
+    destruct Hx as (HA & Hb & Ho). destruct Hx' as [Hx'|Hx']; apply Hin in Hx'; [tauto|].
+    apply nonsing_in_term in HA. tauto.
+  - intros x Hx Hx'. rewrite !in_app_iff in Hx'. apply Hin in Hx.
+    destruct Hx as (HA & Hb & Ho).
+    destruct Hx' as [Hx'|[Hx'|Hx']]; apply Hin in Hx'; try tauto.
+    apply nonsing_in_term in HA. tauto.
+Qed.
+
+Lemma classify_cover a_term shape_a b_term shape_b out c :
+  classify a_term shape_a b_term shape_b out = Some c ->
+  forall ix, In ix (nonsing (combine a_term shape_a)) ->
+  In ix (c_bat c ++ c_con c ++ c_akeep c) \/ (~ In ix b_term /\ ~ In ix out).
+Proof.
+  intros H ix HA. pose proof (classify_in _ _ _ _ _ _ H ix) as Hin. cbv zeta in Hin.
+  rewrite !in_app_iff. destruct Hin as (H1 & H2 & H3 & _). rewrite H1, H2, H3.
+  destruct (in_dec Nat.eq_dec ix b_term); destruct (in_dec Nat.eq_dec ix out); tauto.
+Qed.
+
+Lemma classify_cover_b a_term shape_a b_term shape_b out c :
+  classify a_term shape_a b_term shape_b out = Some c ->
+  forall ix, In ix (nonsing (combine b_term shape_b)) ->
+  In ix a_term \/ In ix (c_bkeep c) \/ ~ In ix out.
+Proof.
+  intros H ix HB. pose proof (classify_in _ _ _ _ _ _ H ix) as Hin. cbv zeta in Hin.
+  destruct Hin as (_ & _ & _ & H4). rewrite H4.
+  destruct (in_dec Nat.eq_dec ix a_term); destruct (in_dec Nat.eq_dec ix out); tauto.
+Qed.
+
+(* ================================================================== *)
+(* D. index_all                                                         *)
+Lemma pf_find_pos_some j s : forall p, find_pos j s = Some p -> p < length s /\ nth p s 0 = j.
+Proof.
+  induction s as [|x s IH]; intros p H; cbn [find_pos] in H; [discriminate H|].
+  destruct (Nat.eqb_spec x j) as [->|Hne].
+  - inversion H; subst p. cbn. split; [lia|reflexivity].
+  - destruct (find_pos j s) as [q|] eqn:E; [|discriminate H].
+    inversion H; subst p. destruct (IH q eq_refl) as [H1 H2]. cbn [length nth]. split; [lia|exact H2].
+Qed.
+
+Lemma pf_find_pos_none j s : find_pos j s = None -> ~ In j s.
+Proof.
+  induction s as [|x s IH]; cbn [find_pos In]; [tauto|].
+  destruct (Nat.eqb_spec x j) as [->|Hne]; [discriminate|].
+  destruct (find_pos j s); [discriminate|]. intros _ [H|H]; [congruence|]. apply IH; [reflexivity|exact H].
+Qed.
+
+Lemma pf_find_pos_in j s : In j s -> exists p, find_pos j s = Some p.
+Proof.
+  intros H. destruct (find_pos j s) as [p|] eqn:E; [exists p; reflexivity|].
+  exfalso. apply (pf_find_pos_none j s E H).
+Qed.
+
+Lemma index_all_spec s l : forall p, index_all s l = Some p ->
+  length p = length l /\ Forall (fun k => k < length s) p /\ map (fun k => nth k s 0) p = l.
+Proof.
+  induction l as [|x l IH]; intros p H; cbn [index_all] in H.
+  - inversion H; subst p. cbn. auto.
+  - destruct (find_pos x s) as [q|] eqn:Eq; [|discriminate H].
+    destruct (index_all s l) as [ps|] eqn:El; [|discriminate H].
+    inversion H; subst p. destruct (IH ps eq_refl) as (H1 & H2 & H3).
+    apply pf_find_pos_some in Eq. destruct Eq as [Hq1 Hq2].
+    cbn [length map]. split; [lia|]. split; [constructor; assumption|]. rewrite Hq2, H3. reflexivity.
+Qed.
+
+Lemma index_all_incl s l p : index_all s l = Some p -> incl l s.
+Proof.
+  intros H x Hx. apply index_all_spec in H. destruct H as (_ & HF & Hm).
+  rewrite <- Hm in Hx. apply in_map_iff in Hx. destruct Hx as (k & <- & Hk).
+  rewrite Forall_forall in HF. apply nth_In, HF, Hk.
+Qed.
+
+Lemma index_all_total s l : incl l s -> exists p, index_all s l = Some p.
+Proof.
+  induction l as [|x l IH]; intros Hi; cbn [index_all]; [exists []; reflexivity|].
+  destruct (pf_find_pos_in x s) as [q Hq]; [apply Hi; left; reflexivity|].
+  destruct IH as [ps Hps]; [intros y Hy; apply Hi; right; exact Hy|].
+  rewrite Hq, Hps. eexists; reflexivity.
+Qed.
+
+Lemma index_all_nodup s l p : index_all s l = Some p -> NoDup l -> NoDup p.
+Proof.
+  intros H N. apply index_all_spec in H. destruct H as (_ & _ & Hm).
+  rewrite <- Hm in N. apply NoDup_map_inv in N. exact N.
+Qed.
+
+Lemma pf_is_perm_intro p n : NoDup p -> Forall (fun k => k < n) p -> length p = n -> is_perm p n = true.
+Proof.
+  intros N HF HL. unfold is_perm. rewrite HL, Nat.eqb_refl. cbn [andb].
+  apply forallb_forall. intros j Hj. apply memb_In.
+  assert (Hi : incl (seq 0 n) p).
+  { apply NoDup_length_incl; [exact N|rewrite seq_length; lia|].
+    intros k Hk. rewrite Forall_forall in HF. apply in_seq. specialize (HF k Hk). lia. }
+  apply Hi, Hj.
+Qed.
+
+Lemma index_all_is_perm s l p : index_all s l = Some p -> NoDup l -> length l = length s ->
+  is_perm p (length s) = true.
+Proof.
+  intros H N HL. pose proof (index_all_nodup _ _ _ H N) as Np.
+  apply index_all_spec in H. destruct H as (H1 & H2 & _).
+  apply pf_is_perm_intro; [exact Np|exact H2|lia].
+Qed.
+
+(* ================================================================== *)
+(* E. group_shape                                                       *)
+Lemma group_shape_prod sizes groups s : group_shape sizes groups = Some s ->
+  nprod s = nprod (map (fun ix => lget0 ix sizes) (concat groups)).
+Proof.
+  unfold group_shape. destruct (existsb _ groups); [|discriminate].
+  intros H. inversion H; subst s. clear H.
+  induction groups as [|g gs IH]; [reflexivity|].
+  cbn [map concat]. rewrite map_app, nprod_app, nprod_cons, IH. reflexivity.
+Qed.
+
+Lemma nprod_repeat_one n : nprod (repeat 1 n) = 1.
+Proof. induction n as [|n IH]; [reflexivity|]. cbn [repeat]. rewrite nprod_cons, IH. reflexivity. Qed.
+
+(* ================================================================== *)
+(* F. the plan of parse_bmm_terms (non-pure branch)                     *)
+Theorem bmm_plan_shapes a_term shape_a b_term shape_b out c eq_a eq_b nsa nsb nsab perm_ab pure :
+  classify a_term shape_a b_term shape_b out = Some c ->
+  c_con c <> [] ->
+  parse_bmm_terms a_term shape_a b_term shape_b out
+    = Some (eq_a, (eq_b, (nsa, (nsb, (nsab, (perm_ab, pure)))))) ->
+  pure = false /\
+  let sz := fun ix => lget0 ix (c_sizes c) in
+  (forall s, nsa = Some s -> nprod s = nprod (map sz (c_bat c ++ c_akeep c ++ c_con c))) /\
+  (forall s, nsb = Some s -> nprod s = nprod (map sz (c_bat c ++ c_con c ++ c_bkeep c))) /\
+  (forall s, nsab = Some s -> nprod s = nprod (map sz (c_bat c ++ c_akeep c ++ c_bkeep c))).
+Proof.
+  intros Hc Hcon H. unfold parse_bmm_terms in H.
+  destruct (negb (Nat.eqb (length a_term) (length shape_a))); [discriminate H|].
+  destruct (negb (Nat.eqb (length b_term) (length shape_b))); [discriminate H|].
+  rewrite Hc in H.
+  destruct (c_con c) as [|c0 cl] eqn:Econ; [congruence|]. clear Hcon.
+  destruct (c_bat c) as [|b0 bl] eqn:Ebat; cbv beta iota zeta in H;
+  (destruct (index_all _ out) as [p|] eqn:Ep; [|discriminate H]);
+  inversion H; subst; clear H; (split; [reflexivity|]); cbv zeta; (split; [|split]); intros s Hs.
+  - apply group_shape_prod in Hs. rewrite Hs. cbn [concat app]. rewrite ?app_nil_r. reflexivity.
+  - apply group_shape_prod in Hs. rewrite Hs. cbn [concat app]. rewrite ?app_nil_r. reflexivity.
+  - destruct (_ || _) in Hs; [|discriminate Hs]. inversion Hs; subst s.
+    rewrite nprod_app, nprod_repeat_one. cbn [concat app map]. rewrite ?app_nil_r. lia.
+  - apply group_shape_prod in Hs. rewrite Hs. cbn [concat]. rewrite ?app_nil_r. reflexivity.
+  - apply group_shape_prod in Hs. rewrite Hs. cbn [concat]. rewrite ?app_nil_r. reflexivity.
+  - destruct (_ || _) in Hs; [|discriminate Hs]. inversion Hs; subst s.
+    rewrite nprod_app, nprod_repeat_one. cbn [concat]. rewrite ?app_nil_r. cbn [app map]. lia.
+Qed.
+
+Lemma index_all_perm_full s l p : index_all s l = Some p -> NoDup l -> NoDup s -> incl s l ->
+  map (fun k => nth k s 0) p = l /\ is_perm p (length s) = true.
+Proof.
+  intros H Nl Ns Hi. split; [apply index_all_spec in H; tauto|].
+  apply (index_all_is_perm s l p H Nl).
+  pose proof (index_all_incl _ _ _ H) as Hi'.
+  pose proof (NoDup_incl_length Nl Hi'). pose proof (NoDup_incl_length Ns Hi). lia.
+Qed.
+
+Lemma classify_produced_incl a_term shape_a b_term shape_b out c :
+  classify a_term shape_a b_term shape_b out = Some c ->
+  incl (filter (fun ix => memb ix (c_sing c)) out ++ c_bat c ++ c_akeep c ++ c_bkeep c) out.
+Proof.
+  intros Hc x Hx. pose proof (classify_in _ _ _ _ _ _ Hc x) as Hin. cbv zeta in Hin.
+  rewrite !in_app_iff in Hx. destruct Hx as [Hx|[Hx|[Hx|Hx]]].
+  - apply filter_In in Hx. tauto.
+  - apply Hin in Hx. tauto.
+  - apply Hin in Hx. tauto.
+  - apply Hin in Hx. tauto.
+Qed.
+
+Theorem bmm_plan_perm a_term shape_a b_term shape_b out c eq_a eq_b nsa nsb nsab perm_ab pure :
+  classify a_term shape_a b_term shape_b out = Some c ->
+  c_con c <> [] ->
+  parse_bmm_terms a_term shape_a b_term shape_b out
+    = Some (eq_a, (eq_b, (nsa, (nsb, (nsab, (perm_ab, pure)))))) ->
+  let produced := filter (fun ix => memb ix (c_sing c)) out ++ c_bat c ++ c_akeep c ++ c_bkeep c in
+  NoDup out -> NoDup produced ->
+  exists p, index_all produced out = Some p /\
+    (perm_ab = None -> p = seq 0 (length p)) /\
+    (forall q, perm_ab = Some q -> q = p) /\
+    map (fun k => nth k produced 0) p = out /\
+    is_perm p (length produced) = true.
+Proof.
+  intros Hc Hcon H. pose proof (classify_produced_incl _ _ _ _ _ _ Hc) as Hincl.
+  unfold parse_bmm_terms in H.
+  destruct (negb (Nat.eqb (length a_term) (length shape_a))); [discriminate H|].
+  destruct (negb (Nat.eqb (length b_term) (length shape_b))); [discriminate H|].
+  rewrite Hc in H.
+  destruct (c_con c) as [|c0 cl] eqn:Econ; [congruence|]. clear Hcon.
+  destruct (c_bat c) as [|b0 bl] eqn:Ebat; cbv beta iota zeta in H |- *; intros No Np;
+  (destruct (index_all _ out) as [p|] eqn:Ep; [|discriminate H]); exists p;
+  inversion H; subst; clear H; (split; [reflexivity|]);
+  (split; [|split]).
+  - destruct (eqb p (seq 0 (length p))) eqn:E; [intros _; apply pf_list_eqb_eq, E|discriminate].
+  - intros q. destruct (eqb p (seq 0 (length p))); [discriminate|]. intros Hq; inversion Hq; reflexivity.
+  - apply index_all_perm_full; assumption.
+  - destruct (eqb p (seq 0 (length p))) eqn:E; [intros _; apply pf_list_eqb_eq, E|discriminate].
+  - intros q. destruct (eqb p (seq 0 (length p))); [discriminate|]. intros Hq; inversion Hq; reflexivity.
+  - apply index_all_perm_full; assumption.
+Qed.
+
+(* ================================================================== *)
+(* G. scan_single (first loop of _parse_einsum_single)                  *)
+Lemma pf_count_cons x y r : count x (y :: r) = (if Nat.eqb x y then 1 else 0) + count x r.
+Proof. unfold count. cbn [filter]. destruct (Nat.eqb x y); reflexivity. Qed.
+
+Lemma scan_single_sum_gen out lhs : forall dg sm seen,
+  (forall x, In x dg -> In x seen) ->
+  snd (scan_single lhs out dg sm seen)
+    = sm ++ filter (fun j => negb (memb j out)) (unique_acc seen lhs).
+Proof.
+  induction lhs as [|ix r IH]; intros dg sm seen Hinv; cbn [scan_single unique_acc].
+  - cbn. rewrite app_nil_r. reflexivity.
+  - destruct (memb ix dg) eqn:Ed.
+    + apply memb_In in Ed. apply Hinv in Ed. apply memb_In in Ed. rewrite Ed. apply IH, Hinv.
+    + destruct (memb ix seen) eqn:Es.
+      * apply IH. intros x Hx. apply in_app_iff in Hx.
+        destruct Hx as [Hx|[<-|[]]]; [apply Hinv, Hx|apply memb_In, Es].
+      * rewrite IH by (intros x Hx; right; apply Hinv, Hx). cbn [filter].
+        destruct (memb ix out); cbn [negb]; [reflexivity|]. rewrite <- app_assoc. reflexivity.
+Qed.
+
+Lemma scan_single_sum lhs out :
+  snd (scan_single lhs out [] [] []) = filter (fun j => negb (memb j out)) (unique lhs).
+Proof. rewrite scan_single_sum_gen by (intros x []). reflexivity. Qed.
+
+Lemma scan_single_diag_gen out x lhs : forall dg sm seen,
+  (forall y, In y dg -> In y seen) ->
+  (In x (fst (scan_single lhs out dg sm seen)) <->
+   In x dg \/ (In x seen /\ 1 <= count x lhs) \/ 2 <= count x lhs).
+Proof.
+  induction lhs as [|ix r IH]; intros dg sm seen Hinv; cbn [scan_single].
+  - cbn [fst]. change (count x []) with 0. intuition lia.
+  - rewrite pf_count_cons. destruct (memb ix dg) eqn:Ed.
+    + rewrite IH by exact Hinv. apply memb_In in Ed.
+      destruct (Nat.eqb_spec x ix) as [->|Hne]; [tauto|]. cbn [Nat.add]. tauto.
+    + apply memb_false in Ed. destruct (memb ix seen) eqn:Es.
+      * apply memb_In in Es. rewrite IH.
+        2:{ intros y Hy. apply in_app_iff in Hy. destruct Hy as [Hy|[<-|[]]]; [apply Hinv, Hy|exact Es]. }
+        rewrite in_app_iff. cbn [In].
+        destruct (Nat.eqb_spec x ix) as [->|Hne]; [intuition lia|].
+        cbn [Nat.add]. intuition congruence.
+      * apply memb_false in Es. rewrite IH by (intros y Hy; right; apply Hinv, Hy).
+        cbn [In].
+        destruct (Nat.eqb_spec x ix) as [->|Hne]; [intuition lia|].
+        cbn [Nat.add]. intuition congruence.
+Qed.
+
+Lemma scan_single_diag_in lhs out ix :
+  In ix (fst (scan_single lhs out [] [] [])) <-> 2 <= count ix lhs.
+Proof. rewrite scan_single_diag_gen by (intros y []). cbn [In]. tauto. Qed.
+
+Lemma scan_single_diag_nodup_gen out lhs : forall dg sm seen,
+  NoDup dg -> NoDup (fst (scan_single lhs out dg sm seen)).
+Proof.
+  induction lhs as [|ix r IH]; intros dg sm seen N; cbn [scan_single]; [exact N|].
+  destruct (memb ix dg) eqn:Ed; [apply IH, N|].
+  destruct (memb ix seen); [|apply IH, N].
+  apply IH. apply NoDup_app_intro; [exact N|constructor; [intros []|constructor]|].
+  intros x Hx [<-|[]]. apply memb_false in Ed. exact (Ed Hx).
+Qed.
+
+Lemma scan_single_diag_nodup lhs out : NoDup (fst (scan_single lhs out [] [] [])).
+Proof. apply scan_single_diag_nodup_gen. constructor. Qed.
+
+(* ================================================================== *)
+(* H. parse_single_core: label bookkeeping                              *)
+Lemma pf_diag_fold_none sizes l : fold_left (diag_step sizes) l None = None.
+Proof. induction l as [|a l IH]; [reflexivity|]. cbn [fold_left diag_step]. exact IH. Qed.
+
+Lemma pf_diag_fold_lhs sizes l : forall sels lhs sels' lhs',
+  fold_left (diag_step sizes) l (Some (sels, lhs)) = Some (sels', lhs') ->
+  lhs' = fold_left (fun l ixd => diag_lhs ixd l) l lhs.
+Proof.
+  induction l as [|ixd l IH]; intros sels lhs sels' lhs' H; cbn [fold_left] in *.
+  - inversion H; reflexivity.
+  - cbn [diag_step] in H.
+    destruct (lget ixd sizes) as [n|]; [|rewrite pf_diag_fold_none in H; discriminate H].
+    apply IH in H. exact H.
+Qed.
+
+Theorem parse_single_core_labels lhs out shape dsel sax perm :
+  parse_single_core lhs out shape = Some (dsel, (sax, perm)) ->
+  (perm = None -> labels_after_sum lhs out = out) /\
+  (forall p, perm = Some p -> map (fun k => nth k (labels_after_sum lhs out) 0) p = out).
+Proof.
+  unfold parse_single_core, labels_after_sum, labels_after_diag.
+  destruct (scan_single lhs out [] [] []) as [dg sm]. cbn [fst snd]. intros H.
+  match type of H with match ?X with _ => _ end = _ =>
+    destruct X as [[diag_sels lhs1]|] eqn:E1; [|discriminate H] end.
+  assert (Hl1 : lhs1 = fold_left (fun l ixd => diag_lhs ixd l) (rev dg) lhs).
+  { destruct dg as [|d0 dg'].
+    - inversion E1; reflexivity.
+    - match type of E1 with match ?X with _ => _ end = _ =>
+        destruct X as [[sels l']|] eqn:Ef; [|discriminate E1] end.
+      inversion E1; subst. apply pf_diag_fold_lhs in Ef. exact Ef. }
+  rewrite <- Hl1. clear E1 Hl1.
+  match type of H with match ?X with _ => _ end = _ =>
+    destruct X as [[sum_axes lhs2]|] eqn:E2; [|discriminate H] end.
+  assert (Hl2 : lhs2 = fold_left (fun l ix => remove_all ix l) sm lhs1).
+  { destruct sm as [|s0 sm'].
+    - inversion E2; reflexivity.
+    - destruct (index_all lhs1 (s0 :: sm')) as [ax|]; [|discriminate E2].
+      inversion E2; reflexivity. }
+  rewrite <- Hl2. clear E2 Hl2.
+  destruct (eqb lhs2 out) eqn:Ee.
+  - inversion H; subst. split; [intros _; apply pf_list_eqb_eq, Ee|discriminate].
+  - destruct (index_all lhs2 out) as [p|] eqn:Ep; [|discriminate H].
+    inversion H; subst. split; [discriminate|]. intros q Hq. inversion Hq; subst q.
+    apply index_all_spec in Ep. tauto.
+Qed.
+
+(* ================================================================== *)
+(* PART 3: getter semantics of the kernels and of the reference; first semantic theorems *)
+
+
+(* ================================================================== *)
+(* 0. small generic helpers                                            *)
+
+Lemma sf_zsum_single v : zsum [v] = v.
+Proof. unfold zsum. cbn [fold_left]. lia. Qed.
+
+Lemma sf_zsum_nil : zsum [] = 0%Z.
+Proof. reflexivity. Qed.
+
+Lemma sf_zprodl_nil : zprodl [] = 1%Z.
+Proof. reflexivity. Qed.
+
+Lemma sf_zprodl_cons a l : zprodl (a :: l) = (a * zprodl l)%Z.
+Proof. reflexivity. Qed.
+
+Lemma sf_zprodl_single a : zprodl [a] = a.
+Proof. rewrite sf_zprodl_cons, sf_zprodl_nil. lia. Qed.
+
+Lemma sf_zprodl_pair a b : zprodl [a; b] = (a * b)%Z.
+Proof. rewrite !sf_zprodl_cons, sf_zprodl_nil. lia. Qed.
+
+Lemma sf_flat_map_single {A B} (f : A -> B) (l : list A) :
+  flat_map (fun a => [f a]) l = map f l.
+Proof. induction l as [|a l IH]; cbn [flat_map map app]; [reflexivity|]. rewrite IH. reflexivity. Qed.
+
+Lemma sf_filter_nil {A} (f : A -> bool) (l : list A) :
+  (forall x, In x l -> f x = false) -> filter f l = [].
+Proof.
+  induction l as [|a l IH]; intros H; cbn [filter]; [reflexivity|].
+  rewrite (H a) by (left; reflexivity). apply IH. intros x Hx. apply H. right. exact Hx.
+Qed.
+
+Lemma sf_filter_all {A} (f : A -> bool) (l : list A) :
+  (forall x, In x l -> f x = true) -> filter f l = l.
+Proof.
+  induction l as [|a l IH]; intros H; cbn [filter]; [reflexivity|].
+  rewrite (H a) by (left; reflexivity). f_equal. apply IH. intros x Hx. apply H. right. exact Hx.
+Qed.
+
+Lemma sf_valid_idx_length s idx : valid_idx s idx -> length idx = length s.
+Proof. intros H. unfold valid_idx in H. induction H; cbn [length]; [reflexivity|]. f_equal. assumption. Qed.
+
+Lemma sf_valid_idx_nil idx : valid_idx [] idx -> idx = [].
+Proof. intros H. inversion H. reflexivity. Qed.
+
+Lemma sf_valid_idx_cons d s idx : valid_idx (d :: s) idx ->
+  exists i idx', idx = i :: idx' /\ i < d /\ valid_idx s idx'.
+Proof. intros H. inversion H; subst. eexists. eexists. split; [reflexivity|]. split; assumption. Qed.
+
+Lemma sf_all_idx_nil : all_idx [] = [[]].
+Proof. reflexivity. Qed.
+
+Lemma sf_all_idx_one d : all_idx [d] = map (fun l => [l]) (seq 0 d).
+Proof. cbn [all_idx map]. apply sf_flat_map_single. Qed.
+
+(* find_pos / pos_in *)
+Lemma sf_find_pos_some j s : forall p, find_pos j s = Some p -> p < length s /\ nth p s 0 = j.
+Proof.
+  induction s as [|x s IH]; intros p H; cbn [find_pos] in H; [discriminate H|].
+  destruct (Nat.eqb_spec x j) as [->|Hne].
+  - inversion H; subst p. cbn. split; [lia|reflexivity].
+  - destruct (find_pos j s) as [q|] eqn:E; [|discriminate H].
+    inversion H; subst p. destruct (IH q eq_refl) as [H1 H2]. cbn [length nth]. split; [lia|exact H2].
+Qed.
+
+Lemma sf_find_pos_none j s : find_pos j s = None -> ~ In j s.
+Proof.
+  induction s as [|x s IH]; cbn [find_pos In]; [tauto|].
+  destruct (Nat.eqb_spec x j) as [->|Hne]; [discriminate|].
+  destruct (find_pos j s); [discriminate|]. intros _ [H|H]; [congruence|]. apply IH; [reflexivity|exact H].
+Qed.
+
+Lemma sf_find_pos_in j s : In j s -> exists p, find_pos j s = Some p.
+Proof.
+  intros H. destruct (find_pos j s) as [p|] eqn:E; [exists p; reflexivity|].
+  exfalso. apply (sf_find_pos_none j s E H).
+Qed.
+
+Lemma sf_find_pos_notin j s : ~ In j s -> find_pos j s = None.
+Proof.
+  intros H. destruct (find_pos j s) as [p|] eqn:E; [|reflexivity].
+  exfalso. apply H. apply sf_find_pos_some in E. destruct E as [E1 E2]. rewrite <- E2. apply nth_In, E1.
+Qed.
+
+Lemma sf_find_pos_map_inj (f : nat -> nat) j l :
+  (forall x, In x l -> f x = f j -> x = j) ->
+  find_pos (f j) (map f l) = find_pos j l.
+Proof.
+  induction l as [|x l IH]; intros H; cbn [map find_pos]; [reflexivity|].
+  destruct (Nat.eqb_spec (f x) (f j)) as [E|E].
+  - rewrite (H x (or_introl eq_refl) E), Nat.eqb_refl. reflexivity.
+  - destruct (Nat.eqb_spec x j) as [->|E']; [congruence|].
+    rewrite IH by (intros y Hy; apply H; right; exact Hy). reflexivity.
+Qed.
+
+Lemma sf_pos_in_map_inj (f : nat -> nat) j l :
+  (forall x, In x l -> f x = f j -> x = j) ->
+  pos_in (f j) (map f l) = pos_in j l.
+Proof. intros H. unfold pos_in. rewrite sf_find_pos_map_inj by exact H. reflexivity. Qed.
+
+Lemma sf_pos_in_lt j l : In j l -> pos_in j l < length l /\ nth (pos_in j l) l 0 = j.
+Proof.
+  intros H. destruct (sf_find_pos_in j l H) as [p Hp]. unfold pos_in. rewrite Hp.
+  apply sf_find_pos_some. exact Hp.
+Qed.
+
+Lemma sf_pos_in_nth l : NoDup l -> forall k, k < length l -> pos_in (nth k l 0) l = k.
+Proof.
+  intros ND k Hk. destruct (sf_pos_in_lt (nth k l 0) l (nth_In l 0 Hk)) as [H1 H2].
+  rewrite (NoDup_nth l 0) in ND. apply ND; assumption.
+Qed.
+
+(* unique on a duplicate-free list *)
+Lemma sf_unique_acc_id l : forall seen, NoDup l -> (forall x, In x l -> ~ In x seen) ->
+  unique_acc seen l = l.
+Proof.
+  induction l as [|x l IH]; intros seen ND Hd; cbn [unique_acc]; [reflexivity|].
+  inversion ND as [|? ? Hn ND']; subst.
+  assert (E : memb x seen = false) by (apply memb_false, Hd; left; reflexivity).
+  rewrite E. f_equal. apply IH; [exact ND'|].
+  intros y Hy [<-|Hs]; [exact (Hn Hy)|]. apply (Hd y); [right; exact Hy|exact Hs].
+Qed.
+
+Lemma sf_unique_id l : NoDup l -> unique l = l.
+Proof. intros ND. unfold unique. apply sf_unique_acc_id; [exact ND|]. intros x _ []. Qed.
+
+Lemma sf_unique_acc_in x l : forall seen,
+  In x (unique_acc seen l) <-> In x l /\ ~ In x seen.
+Proof.
+  induction l as [|y l IH]; intros seen; cbn [unique_acc].
+  - cbn [In]. tauto.
+  - destruct (memb y seen) eqn:E.
+    + apply memb_In in E. rewrite IH. cbn [In]. split; [tauto|].
+      intros [[->|H] Hn]; tauto.
+    + apply memb_false in E. cbn [In]. rewrite IH. cbn [In].
+      destruct (Nat.eq_dec y x) as [->|Hne]; tauto.
+Qed.
+
+Lemma sf_unique_acc_nodup l : forall seen, NoDup (unique_acc seen l).
+Proof.
+  induction l as [|y l IH]; intros seen; cbn [unique_acc]; [constructor|].
+  destruct (memb y seen) eqn:E; [apply IH|].
+  constructor; [|apply IH].
+  rewrite sf_unique_acc_in. cbn [In]. tauto.
+Qed.
+
+Lemma sf_unique_in x l : In x (unique l) <-> In x l.
+Proof. unfold unique. rewrite sf_unique_acc_in. cbn [In]. tauto. Qed.
+
+Lemma sf_unique_nodup l : NoDup (unique l).
+Proof. apply sf_unique_acc_nodup. Qed.
+
+(* is_perm *)
+Lemma sf_is_perm_elim p n : is_perm p n = true ->
+  length p = n /\ NoDup p /\ (forall q, In q p <-> q < n).
+Proof.
+  unfold is_perm. intros H. apply andb_true_iff in H. destruct H as [HL HF].
+  apply Nat.eqb_eq in HL. rewrite forallb_forall in HF.
+  assert (Hi : incl (seq 0 n) p).
+  { intros j Hj. apply memb_In, HF, Hj. }
+  assert (ND : NoDup p).
+  { apply (@NoDup_incl_NoDup _ (seq 0 n) p); [apply seq_NoDup|rewrite seq_length; lia|exact Hi]. }
+  split; [exact HL|]. split; [exact ND|].
+  intros q. split.
+  - intros Hq.
+    assert (Hi' : incl p (seq 0 n)).
+    { apply NoDup_length_incl; [apply seq_NoDup|rewrite seq_length; lia|exact Hi]. }
+    apply Hi', in_seq in Hq. lia.
+  - intros Hq. apply Hi, in_seq. lia.
+Qed.
+
+Lemma sf_is_perm_intro p n : NoDup p -> Forall (fun k => k < n) p -> length p = n -> is_perm p n = true.
+Proof.
+  intros N HF HL. unfold is_perm. rewrite HL, Nat.eqb_refl. cbn [andb].
+  apply forallb_forall. intros j Hj. apply memb_In.
+  assert (Hi : incl (seq 0 n) p).
+  { apply NoDup_length_incl; [exact N|rewrite seq_length; lia|].
+    intros k Hk. rewrite Forall_forall in HF. apply in_seq. specialize (HF k Hk). lia. }
+  apply Hi, Hj.
+Qed.
+
+Lemma sf_nodupb_NoDup l : nodupb l = true <-> NoDup l.
+Proof.
+  induction l as [|x l IH]; cbn [nodupb].
+  - split; [constructor|reflexivity].
+  - rewrite andb_true_iff, negb_true_iff, memb_false, IH. split.
+    + intros [H1 H2]. constructor; assumption.
+    + intros H. inversion H; subst. split; assumption.
+Qed.
+
+(* ================================================================== *)
+(* 1. getter characterisations of the kernels                          *)
+
+Definition sf_kept (r : nat) (axes : list nat) : list nat :=
+  filter (fun j => negb (memb j axes)) (seq 0 r).
+
+Lemma sum_axes_some t axes :
+  nodupb axes = true -> Forall (fun a => a < length (tshape t)) axes ->
+  sum_axes t axes =
+  Some (tbuild (dims_at (tshape t) (sf_kept (length (tshape t)) axes))
+               (fun oidx => zsum (map (fun sidx => tget t (assemble (length (tshape t)) (sf_kept (length (tshape t)) axes) oidx axes sidx))
+                                      (all_idx (dims_at (tshape t) axes))))).
+Proof.
+  intros H1 H2. unfold sum_axes. rewrite H1. cbn [andb].
+  assert (E : forallb (fun a => Nat.ltb a (length (tshape t))) axes = true).
+  { apply forallb_forall. intros a Ha. apply Nat.ltb_lt. rewrite Forall_forall in H2. apply H2, Ha. }
+  rewrite E. reflexivity.
+Qed.
+
+Lemma tget_sum_axes t axes t' :
+  sum_axes t axes = Some t' ->
+  tshape t' = dims_at (tshape t) (sf_kept (length (tshape t)) axes) /\
+  wf_tensor t' = true /\
+  forall oidx, valid_idx (tshape t') oidx ->
+    tget t' oidx =
+    zsum (map (fun sidx => tget t (assemble (length (tshape t)) (sf_kept (length (tshape t)) axes) oidx axes sidx))
+              (all_idx (dims_at (tshape t) axes))).
+Proof.
+  intros H. unfold sum_axes in H.
+  destruct (nodupb axes && forallb (fun a => Nat.ltb a (length (tshape t))) axes); [|discriminate H].
+  inversion H; subst t'; clear H.
+  split; [reflexivity|]. split; [apply tbuild_wf|].
+  intros oidx Hv. unfold sf_kept. rewrite tget_tbuild by exact Hv. reflexivity.
+Qed.
+
+Lemma matmul2_some x y m k n :
+  tshape x = [m; k] -> tshape y = [k; n] ->
+  matmul x y = Some (tbuild [m; n] (fun idx =>
+     zsum (map (fun l => (tget x [nth 0%nat idx 0%nat; l] * tget y [l; nth 1%nat idx 0%nat])%Z) (seq 0 k)))).
+Proof.
+  intros Hx Hy. unfold matmul. rewrite Hx, Hy. cbv beta iota. rewrite Nat.eqb_refl. reflexivity.
+Qed.
+
+Lemma tget_matmul2 x y m k n :
+  tshape x = [m; k] -> tshape y = [k; n] ->
+  exists t', matmul x y = Some t' /\ tshape t' = [m; n] /\ wf_tensor t' = true /\
+    forall i j, i < m -> j < n ->
+      tget t' [i; j] = zsum (map (fun l => (tget x [i; l] * tget y [l; j])%Z) (seq 0 k)).
+Proof.
+  intros Hx Hy. eexists. split; [apply (matmul2_some x y m k n Hx Hy)|].
+  split; [reflexivity|]. split; [apply tbuild_wf|].
+  intros i j Hi Hj. rewrite tget_tbuild; [reflexivity|].
+  constructor; [exact Hi|]. constructor; [exact Hj|]. constructor.
+Qed.
+
+Lemma matmul3_some x y b m k n :
+  tshape x = [b; m; k] -> tshape y = [b; k; n] ->
+  matmul x y = Some (tbuild [b; m; n] (fun idx =>
+     zsum (map (fun l => (tget x [nth 0%nat idx 0%nat; nth 1%nat idx 0%nat; l] * tget y [nth 0%nat idx 0%nat; l; nth 2%nat idx 0%nat])%Z) (seq 0 k)))).
+Proof.
+  intros Hx Hy. unfold matmul. rewrite Hx, Hy. cbv beta iota. rewrite !Nat.eqb_refl. reflexivity.
+Qed.
+
+Lemma tget_matmul3 x y b m k n :
+  tshape x = [b; m; k] -> tshape y = [b; k; n] ->
+  exists t', matmul x y = Some t' /\ tshape t' = [b; m; n] /\ wf_tensor t' = true /\
+    forall c i j, c < b -> i < m -> j < n ->
+      tget t' [c; i; j] = zsum (map (fun l => (tget x [c; i; l] * tget y [c; l; j])%Z) (seq 0 k)).
+Proof.
+  intros Hx Hy. eexists. split; [apply (matmul3_some x y b m k n Hx Hy)|].
+  split; [reflexivity|]. split; [apply tbuild_wf|].
+  intros c i j Hc Hi Hj. rewrite tget_tbuild; [reflexivity|].
+  constructor; [exact Hc|]. constructor; [exact Hi|]. constructor; [exact Hj|]. constructor.
+Qed.
+
+Lemma tget_multiply x y t' :
+  multiply x y = Some t' ->
+  bcast_shape (tshape x) (tshape y) = Some (tshape t') /\ wf_tensor t' = true /\
+  forall idx, valid_idx (tshape t') idx ->
+    tget t' idx = (tget x (clip (tshape x) idx) * tget y (clip (tshape y) idx))%Z.
+Proof.
+  unfold multiply. destruct (bcast_shape (tshape x) (tshape y)) as [s|] eqn:E; [|discriminate].
+  intros H. inversion H; subst t'; clear H.
+  split; [reflexivity|]. split; [apply tbuild_wf|].
+  intros idx Hv. rewrite tget_tbuild by exact Hv. reflexivity.
+Qed.
+
+Lemma adv_index_nil t sel t' :
+  adv_index t sel = Some t' -> adv_positions sel = [] -> t' = t.
+Proof.
+  intros H Ha. unfold adv_index in H.
+  destruct (negb (Nat.eqb (length sel) (length (tshape t)))); [discriminate H|].
+  rewrite Ha in H. inversion H. reflexivity.
+Qed.
+
+Lemma tget_adv_index t sel t' a0 adv' :
+  adv_index t sel = Some t' -> adv_positions sel = a0 :: adv' ->
+  let adv := a0 :: adv' in
+  let sl := slice_positions sel in
+  let n := hd 0 (map (fun j => match nth j sel None with Some n => n | None => 0 end) adv) in
+  let dpos := if eqb adv (seq a0 (length adv)) then a0 else 0 in
+  length sel = length (tshape t) /\
+  tshape t' = insert_at dpos n (dims_at (tshape t) sl) /\
+  wf_tensor t' = true /\
+  forall idx, valid_idx (tshape t') idx ->
+    tget t' idx =
+    tget t (map (fun j => if memb j adv then nth dpos idx 0
+                          else nth (pos_in j sl) (remove_at dpos idx) 0)
+                (seq 0 (length (tshape t)))).
+Proof.
+  intros H Ha adv sl n dpos. unfold adv_index in H.
+  destruct (Nat.eqb (length sel) (length (tshape t))) eqn:EL; cbn [negb] in H; [|discriminate H].
+  apply Nat.eqb_eq in EL.
+  rewrite Ha in H.
+  destruct (negb (forallb (Nat.eqb (hd 0 (map (fun j => match nth j sel None with Some n => n | None => 0 end) (a0 :: adv'))))
+                          (map (fun j => match nth j sel None with Some n => n | None => 0 end) (a0 :: adv')))); [discriminate H|].
+  destruct (negb (forallb (fun j => Nat.leb (hd 0 (map (fun j => match nth j sel None with Some n => n | None => 0 end) (a0 :: adv')))
+                                          (nth j (tshape t) 0)) (a0 :: adv'))); [discriminate H|].
+  inversion H; subst t'; clear H.
+  split; [exact EL|]. split; [reflexivity|]. split; [apply tbuild_wf|].
+  intros idx Hv. rewrite tget_tbuild by exact Hv. reflexivity.
+Qed.
+
+Lemma transpose_wf t p t' : transpose t p = Some t' -> wf_tensor t' = true.
+Proof.
+  unfold transpose. destruct (is_perm p (length (tshape t))); [|discriminate].
+  intros H. inversion H. apply tbuild_wf.
+Qed.
+
+Lemma reshape_wf t s t' : reshape t s = Some t' -> wf_tensor t' = true /\ tshape t' = s.
+Proof.
+  unfold reshape. destruct (Nat.eqb (nprod s) (length (tdata t))) eqn:E; [|discriminate].
+  intros H. inversion H; subst t'. apply Nat.eqb_eq in E.
+  split; [|reflexivity]. unfold wf_tensor, tshape, tdata. cbn [fst snd].
+  apply Nat.eqb_eq. symmetry. exact E.
+Qed.
+
+(* ================================================================== *)
+(* 2. getter form of the reference einsum                              *)
+
+Definition sf_inner (terms : list str) (out : str) : list nat :=
+  filter (fun j => negb (memb j out)) (unique (concat terms)).
+
+Lemma einsum_ref_shape terms out ops :
+  tshape (einsum_ref terms out ops) = map (elook (label_sizes terms ops)) out.
+Proof. reflexivity. Qed.
+
+Lemma einsum_ref_wf terms out ops : wf_tensor (einsum_ref terms out ops) = true.
+Proof. unfold einsum_ref. cbv zeta. apply tbuild_wf. Qed.
+
+Lemma tget_einsum_ref terms out ops oidx :
+  valid_idx (map (elook (label_sizes terms ops)) out) oidx ->
+  tget (einsum_ref terms out ops) oidx =
+  zsum (map (fun iidx =>
+               zprodl (map (fun to => tget (snd to)
+                                           (map (elook (combine out oidx ++ combine (sf_inner terms out) iidx)) (fst to)))
+                           (combine terms ops)))
+            (all_idx (map (elook (label_sizes terms ops)) (sf_inner terms out)))).
+Proof.
+  intros Hv. unfold einsum_ref, sf_inner. cbv zeta. rewrite tget_tbuild by exact Hv. reflexivity.
+Qed.
+
+(* ================================================================== *)
+(* 3. environment lookups                                              *)
+
+Lemma elook_app_l e1 e2 j : In j (map fst e1) -> elook (e1 ++ e2) j = elook e1 j.
+Proof.
+  induction e1 as [|[k v] e1 IH]; cbn [map In app elook fst]; [tauto|].
+  intros H. destruct (Nat.eqb_spec k j) as [E|E]; [reflexivity|].
+  apply IH. destruct H as [H|H]; [congruence|exact H].
+Qed.
+
+Lemma elook_app_r e1 e2 j : ~ In j (map fst e1) -> elook (e1 ++ e2) j = elook e2 j.
+Proof.
+  induction e1 as [|[k v] e1 IH]; cbn [map In app elook fst]; [reflexivity|].
+  intros H. destruct (Nat.eqb_spec k j) as [E|E]; [tauto|].
+  apply IH. tauto.
+Qed.
+
+Lemma sf_in_combine_fst (ks vs : list nat) j : In j (map fst (combine ks vs)) -> In j ks.
+Proof.
+  intros H. apply in_map_iff in H. destruct H as [[a b] [E H]]. cbn [fst] in E. subst a.
+  apply in_combine_l in H. exact H.
+Qed.
+
+Lemma sf_map_fst_combine (ks vs : list nat) : length vs = length ks -> map fst (combine ks vs) = ks.
+Proof.
+  revert vs. induction ks as [|k ks IH]; intros [|v vs] H; cbn [length] in H; try lia; cbn [combine map fst]; [reflexivity|].
+  f_equal. apply IH. lia.
+Qed.
+
+Lemma elook_combine_pos ks : forall vs j, In j ks -> length vs = length ks ->
+  elook (combine ks vs) j = nth (pos_in j ks) vs 0.
+Proof.
+  unfold pos_in.
+  induction ks as [|k ks IH]; intros vs j Hin HL; [destruct Hin|].
+  destruct vs as [|v vs]; cbn [length] in HL; [lia|].
+  cbn [combine elook find_pos].
+  destruct (Nat.eqb_spec k j) as [E|E]; [reflexivity|].
+  destruct Hin as [Hin|Hin]; [congruence|].
+  rewrite IH by (try exact Hin; lia).
+  destruct (sf_find_pos_in j ks Hin) as [p Hp]. rewrite Hp. reflexivity.
+Qed.
+
+Lemma elook_combine_nth ks vs k : NoDup ks -> k < length ks -> length vs = length ks ->
+  elook (combine ks vs) (nth k ks 0) = nth k vs 0.
+Proof.
+  intros ND Hk HL. rewrite elook_combine_pos by (try apply nth_In; assumption).
+  rewrite sf_pos_in_nth by assumption. reflexivity.
+Qed.
+
+(* ================================================================== *)
+(* 4. matrix multiplication is the einsum                              *)
+
+Ltac sf_eqb_step :=
+  match goal with
+  | |- context [Nat.eqb ?a ?a] => rewrite (Nat.eqb_refl a)
+  | |- context [Nat.eqb ?a ?b] =>
+      let H := fresh "Hneq" in
+      assert (H : Nat.eqb a b = false) by (apply Nat.eqb_neq; congruence);
+      rewrite H; clear H
+  end.
+Ltac sf_eqb :=
+  repeat (cbn [unique_acc memb existsb filter orb andb negb map elook combine app fst snd concat nth];
+          sf_eqb_step);
+  cbn [unique_acc memb existsb filter orb andb negb map elook combine app fst snd concat nth].
+
+Theorem matmul2_is_einsum x y m kk n i j k :
+  i <> j -> i <> k -> j <> k ->
+  tshape x = [m; kk] -> tshape y = [kk; n] ->
+  matmul x y = Some (einsum_ref [[i; k]; [k; j]] [i; j] [x; y]).
+Proof.
+  intros Hij Hik Hjk Hx Hy.
+  rewrite (matmul2_some x y m kk n Hx Hy). f_equal.
+  assert (Hsz : label_sizes [[i; k]; [k; j]] [x; y] = [(i, m); (k, kk); (k, kk); (j, n)]).
+  { unfold label_sizes. cbn [combine map fst snd concat]. rewrite Hx, Hy. reflexivity. }
+  assert (Hin : sf_inner [[i; k]; [k; j]] [i; j] = [k]).
+  { unfold sf_inner, unique. sf_eqb. reflexivity. }
+  apply tensor_ext.
+  - apply tbuild_wf.
+  - apply einsum_ref_wf.
+  - rewrite einsum_ref_shape, Hsz. unfold tbuild, tshape. cbn [fst]. sf_eqb. reflexivity.
+  - intros idx Hv. change (valid_idx [m; n] idx) in Hv.
+    destruct (sf_valid_idx_cons _ _ _ Hv) as (i0 & r1 & -> & Hi0 & Hv1).
+    destruct (sf_valid_idx_cons _ _ _ Hv1) as (j0 & r2 & -> & Hj0 & Hv2).
+    apply sf_valid_idx_nil in Hv2. subst r2.
+    rewrite tget_tbuild by exact Hv.
+    rewrite tget_einsum_ref by (rewrite Hsz; sf_eqb; exact Hv).
+    rewrite Hin, Hsz. sf_eqb.
+    rewrite sf_all_idx_one, map_map.
+    f_equal. apply map_ext. intros l.
+    sf_eqb. rewrite sf_zprodl_pair. reflexivity.
+Qed.
+
+Theorem matmul3_is_einsum x y bb m kk n b i j k :
+  b <> i -> b <> j -> b <> k -> i <> j -> i <> k -> j <> k ->
+  tshape x = [bb; m; kk] -> tshape y = [bb; kk; n] ->
+  matmul x y = Some (einsum_ref [[b; i; k]; [b; k; j]] [b; i; j] [x; y]).
+Proof.
+  intros Hbi Hbj Hbk Hij Hik Hjk Hx Hy.
+  rewrite (matmul3_some x y bb m kk n Hx Hy). f_equal.
+  assert (Hsz : label_sizes [[b; i; k]; [b; k; j]] [x; y] =
+                [(b, bb); (i, m); (k, kk); (b, bb); (k, kk); (j, n)]).
+  { unfold label_sizes. cbn [combine map fst snd concat]. rewrite Hx, Hy. reflexivity. }
+  assert (Hin : sf_inner [[b; i; k]; [b; k; j]] [b; i; j] = [k]).
+  { unfold sf_inner, unique. sf_eqb. reflexivity. }
+  apply tensor_ext.
+  - apply tbuild_wf.
+  - apply einsum_ref_wf.
+  - rewrite einsum_ref_shape, Hsz. unfold tbuild, tshape. cbn [fst]. sf_eqb. reflexivity.
+  - intros idx Hv. change (valid_idx [bb; m; n] idx) in Hv.
+    destruct (sf_valid_idx_cons _ _ _ Hv) as (c0 & r0 & -> & Hc0 & Hv0).
+    destruct (sf_valid_idx_cons _ _ _ Hv0) as (i0 & r1 & -> & Hi0 & Hv1).
+    destruct (sf_valid_idx_cons _ _ _ Hv1) as (j0 & r2 & -> & Hj0 & Hv2).
+    apply sf_valid_idx_nil in Hv2. subst r2.
+    rewrite tget_tbuild by exact Hv.
+    rewrite tget_einsum_ref by (rewrite Hsz; sf_eqb; exact Hv).
+    rewrite Hin, Hsz. sf_eqb.
+    rewrite sf_all_idx_one, map_map.
+    f_equal. apply map_ext. intros l.
+    sf_eqb. rewrite sf_zprodl_pair. reflexivity.
+Qed.
+
+(* ================================================================== *)
+(* 5. a pure transposition is the einsum                               *)
+
+Lemma sf_label_sizes_single lhs t : label_sizes [lhs] [t] = combine lhs (tshape t).
+Proof. unfold label_sizes. cbn [combine map fst snd concat]. apply app_nil_r. Qed.
+
+Lemma sf_dims_at_elook lhs s ps :
+  NoDup lhs -> length lhs = length s -> Forall (fun q => q < length lhs) ps ->
+  map (elook (combine lhs s)) (map (fun q => nth q lhs 0) ps) = dims_at s ps.
+Proof.
+  intros ND HL HF. unfold dims_at. rewrite map_map. apply map_ext_in. intros q Hq.
+  rewrite Forall_forall in HF.
+  apply elook_combine_nth; [exact ND|apply HF, Hq|symmetry; exact HL].
+Qed.
+
+Theorem transpose_is_einsum t lhs p :
+  NoDup lhs -> length lhs = length (tshape t) -> is_perm p (length lhs) = true ->
+  transpose t p = Some (einsum_ref [lhs] (map (fun q => nth q lhs 0) p) [t]).
+Proof.
+  intros ND HL Hp.
+  destruct (sf_is_perm_elim _ _ Hp) as (HLp & NDp & Hpin).
+  unfold transpose. rewrite <- HL, Hp. f_equal.
+  set (out := map (fun q => nth q lhs 0) p).
+  assert (HF : Forall (fun q => q < length lhs) p).
+  { apply Forall_forall. intros q Hq. apply Hpin, Hq. }
+  assert (Hin : sf_inner [lhs] out = []).
+  { unfold sf_inner. apply sf_filter_nil. intros x Hx. apply (proj1 (sf_unique_in _ _)) in Hx.
+    cbn [concat] in Hx. rewrite app_nil_r in Hx.
+    apply negb_false_iff, memb_In. destruct (In_nth lhs x 0 Hx) as (q & Hq & <-).
+    unfold out. apply in_map_iff. exists q. split; [reflexivity|]. apply Hpin, Hq. }
+  assert (Hsh : map (elook (label_sizes [lhs] [t])) out = dims_at (tshape t) p).
+  { rewrite sf_label_sizes_single. unfold out. apply sf_dims_at_elook; assumption. }
+  apply tensor_ext.
+  - apply tbuild_wf.
+  - apply einsum_ref_wf.
+  - rewrite einsum_ref_shape, Hsh. reflexivity.
+  - intros idx Hv. change (valid_idx (dims_at (tshape t) p) idx) in Hv.
+    rewrite tget_tbuild by exact Hv.
+    rewrite tget_einsum_ref by (rewrite Hsh; exact Hv).
+    rewrite Hin. cbn [map]. rewrite sf_all_idx_nil. cbn [map combine].
+    rewrite sf_zsum_single, sf_zprodl_single. cbn [fst snd]. rewrite app_nil_r.
+    f_equal.
+    apply (nth_ext _ _ 0 0).
+    + rewrite !map_length, seq_length. reflexivity.
+    + intros k Hk. rewrite map_length, seq_length in Hk.
+      rewrite (nth_map_lt _ (seq 0 (length lhs)) k 0 0) by (rewrite seq_length; exact Hk).
+      rewrite seq_nth by exact Hk. cbn [Nat.add].
+      rewrite (nth_map_lt (elook (combine out idx)) lhs k 0 0) by exact Hk.
+      rewrite elook_combine_pos.
+      * unfold out. rewrite (sf_pos_in_map_inj (fun q => nth q lhs 0) k p); [reflexivity|].
+        intros q Hq E. rewrite (NoDup_nth lhs 0) in ND.
+        apply ND; [apply Hpin, Hq|exact Hk|exact E].
+      * unfold out. apply in_map_iff. exists k. split; [reflexivity|apply Hpin, Hk].
+      * rewrite (sf_valid_idx_length _ _ Hv). unfold out, dims_at. rewrite !map_length. reflexivity.
+Qed.
+
+(* ================================================================== *)
+(* 6. summing axes is the einsum                                       *)
+
+Lemma sf_sorted_nodup l : StronglySorted lt l -> NoDup l.
+Proof.
+  induction 1 as [|a l HS IH HF]; constructor; [|exact IH].
+  intros Hin. rewrite Forall_forall in HF. specialize (HF a Hin). lia.
+Qed.
+
+Lemma sf_sorted_ext l1 : forall l2, StronglySorted lt l1 -> StronglySorted lt l2 ->
+  (forall x, In x l1 <-> In x l2) -> l1 = l2.
+Proof.
+  induction l1 as [|a l1 IH]; intros [|b l2] S1 S2 H.
+  - reflexivity.
+  - exfalso. apply (proj2 (H b)). left; reflexivity.
+  - exfalso. apply (proj1 (H a)). left; reflexivity.
+  - inversion S1 as [|? ? S1' F1]; subst. inversion S2 as [|? ? S2' F2]; subst.
+    rewrite Forall_forall in F1. rewrite Forall_forall in F2.
+    assert (Eab : a = b).
+    { destruct (proj1 (H a) (or_introl eq_refl)) as [E|E]; [congruence|].
+      destruct (proj2 (H b) (or_introl eq_refl)) as [E'|E']; [congruence|].
+      specialize (F1 b E'). specialize (F2 a E). lia. }
+    subst b. f_equal. apply IH; try assumption.
+    intros x. split; intros Hx.
+    + destruct (proj1 (H x) (or_intror Hx)) as [E|E]; [|exact E].
+      subst x. specialize (F1 a Hx). lia.
+    + destruct (proj2 (H x) (or_intror Hx)) as [E|E]; [|exact E].
+      subst x. specialize (F2 a Hx). lia.
+Qed.
+
+Lemma sf_seq_sorted n : forall a, StronglySorted lt (seq a n).
+Proof.
+  induction n as [|n IH]; intros a; cbn [seq]; constructor; [apply IH|].
+  apply Forall_forall. intros x Hx. apply in_seq in Hx. lia.
+Qed.
+
+Lemma sf_filter_sorted (f : nat -> bool) l : StronglySorted lt l -> StronglySorted lt (filter f l).
+Proof.
+  induction 1 as [|a l HS IH HF]; cbn [filter]; [constructor|].
+  destruct (f a); [|exact IH]. constructor; [exact IH|].
+  rewrite Forall_forall in HF. apply Forall_forall. intros x Hx. apply filter_In in Hx. apply HF, Hx.
+Qed.
+
+Lemma sf_kept_in r axes k : In k (sf_kept r axes) <-> k < r /\ ~ In k axes.
+Proof.
+  unfold sf_kept. rewrite filter_In, in_seq, negb_true_iff, memb_false.
+  split; intros [H1 H2]; (split; [lia|exact H2]).
+Qed.
+
+Lemma sf_kept_lt r axes : Forall (fun q => q < r) (sf_kept r axes).
+Proof. apply Forall_forall. intros q Hq. apply sf_kept_in in Hq. tauto. Qed.
+
+Lemma sf_summed_sorted r axes : StronglySorted lt axes -> Forall (fun a => a < r) axes ->
+  filter (fun j => negb (memb j (sf_kept r axes))) (seq 0 r) = axes.
+Proof.
+  intros S HF. apply sf_sorted_ext; [apply sf_filter_sorted, sf_seq_sorted|exact S|].
+  intros x. rewrite filter_In, in_seq, negb_true_iff, memb_false, sf_kept_in.
+  rewrite Forall_forall in HF. split.
+  - intros [H1 H2]. destruct (in_dec Nat.eq_dec x axes) as [Hi|Hn]; [exact Hi|].
+    exfalso. apply H2. split; [lia|exact Hn].
+  - intros Hx. specialize (HF x Hx). split; [lia|]. intros [_ Hn]. exact (Hn Hx).
+Qed.
+
+Lemma sf_map_nth_seq (l : list nat) : map (fun q => nth q l 0) (seq 0 (length l)) = l.
+Proof.
+  apply (nth_ext _ _ 0 0).
+  - rewrite map_length, seq_length. reflexivity.
+  - intros k Hk. rewrite map_length, seq_length in Hk.
+    rewrite (nth_map_lt _ (seq 0 (length l)) k 0 0) by (rewrite seq_length; exact Hk).
+    rewrite seq_nth by exact Hk. reflexivity.
+Qed.
+
+Lemma sf_filter_map {A B} (f : B -> bool) (g : A -> B) (l : list A) :
+  filter f (map g l) = map g (filter (fun a => f (g a)) l).
+Proof.
+  induction l as [|a l IH]; cbn [map filter]; [reflexivity|].
+  destruct (f (g a)); cbn [map]; rewrite IH; reflexivity.
+Qed.
+
+Lemma sf_filter_labels lhs (f g : nat -> bool) :
+  (forall q, q < length lhs -> f (nth q lhs 0) = g q) ->
+  filter f lhs = map (fun q => nth q lhs 0) (filter g (seq 0 (length lhs))).
+Proof.
+  intros H.
+  transitivity (filter f (map (fun q => nth q lhs 0) (seq 0 (length lhs)))).
+  - f_equal. symmetry. apply sf_map_nth_seq.
+  - rewrite sf_filter_map. f_equal. apply filter_ext_in. intros q Hq. apply in_seq in Hq.
+    apply H. lia.
+Qed.
+
+Lemma sf_in_map_nth lhs ps k :
+  NoDup lhs -> k < length lhs -> Forall (fun q => q < length lhs) ps ->
+  (In (nth k lhs 0) (map (fun q => nth q lhs 0) ps) <-> In k ps).
+Proof.
+  intros ND Hk HF. rewrite Forall_forall in HF. rewrite in_map_iff. split.
+  - intros (q & E & Hq). rewrite (NoDup_nth lhs 0) in ND.
+    assert (q = k) by (apply ND; [apply HF, Hq|exact Hk|exact E]). subst q. exact Hq.
+  - intros Hin. exists k. split; [reflexivity|exact Hin].
+Qed.
+
+Lemma sf_memb_map_nth lhs ps k :
+  NoDup lhs -> k < length lhs -> Forall (fun q => q < length lhs) ps ->
+  memb (nth k lhs 0) (map (fun q => nth q lhs 0) ps) = memb k ps.
+Proof.
+  intros ND Hk HF. apply Bool.eq_iff_eq_true. rewrite !memb_In. apply sf_in_map_nth; assumption.
+Qed.
+
+Lemma sf_pos_in_map_nth lhs ps k :
+  NoDup lhs -> k < length lhs -> Forall (fun q => q < length lhs) ps ->
+  pos_in (nth k lhs 0) (map (fun q => nth q lhs 0) ps) = pos_in k ps.
+Proof.
+  intros ND Hk HF. apply (sf_pos_in_map_inj (fun q => nth q lhs 0) k ps).
+  intros q Hq E. rewrite Forall_forall in HF. rewrite (NoDup_nth lhs 0) in ND.
+  apply ND; [apply HF, Hq|exact Hk|exact E].
+Qed.
+
+Theorem sum_axes_is_einsum t lhs axes :
+  NoDup lhs -> length lhs = length (tshape t) ->
+  StronglySorted lt axes -> Forall (fun a => a < length lhs) axes ->
+  sum_axes t axes =
+  Some (einsum_ref [lhs] (map (fun q => nth q lhs 0) (sf_kept (length lhs) axes)) [t]).
+Proof.
+  intros ND HL HS HF.
+  rewrite sum_axes_some; [|apply sf_nodupb_NoDup, sf_sorted_nodup, HS|rewrite <- HL; exact HF].
+  rewrite <- HL. f_equal.
+  set (r := length lhs) in *.
+  set (kept := sf_kept r axes).
+  set (out := map (fun q => nth q lhs 0) kept).
+  assert (HFk : Forall (fun q => q < r) kept) by apply sf_kept_lt.
+  assert (Hin : sf_inner [lhs] out = map (fun q => nth q lhs 0) axes).
+  { unfold sf_inner. cbn [concat]. rewrite app_nil_r, sf_unique_id by exact ND.
+    rewrite (sf_filter_labels lhs _ (fun q => negb (memb q kept))).
+    - fold r. unfold kept. rewrite sf_summed_sorted by assumption. reflexivity.
+    - intros q Hq. f_equal. unfold out. apply sf_memb_map_nth; assumption. }
+  assert (Hsh : map (elook (label_sizes [lhs] [t])) out = dims_at (tshape t) kept).
+  { rewrite sf_label_sizes_single. unfold out. apply sf_dims_at_elook; assumption. }
+  assert (Hsh2 : map (elook (label_sizes [lhs] [t])) (map (fun q => nth q lhs 0) axes) = dims_at (tshape t) axes).
+  { rewrite sf_label_sizes_single. apply sf_dims_at_elook; assumption. }
+  apply tensor_ext.
+  - apply tbuild_wf.
+  - apply einsum_ref_wf.
+  - rewrite einsum_ref_shape, Hsh. reflexivity.
+  - intros oidx Hv. change (valid_idx (dims_at (tshape t) kept) oidx) in Hv.
+    rewrite tget_tbuild by exact Hv.
+    rewrite tget_einsum_ref by (rewrite Hsh; exact Hv).
+    rewrite Hin, Hsh2. f_equal. apply map_ext_in. intros sidx Hs. apply in_all_idx in Hs.
+    cbn [map combine]. rewrite sf_zprodl_single. cbn [fst snd].
+    f_equal.
+    assert (HLo : length oidx = length out).
+    { rewrite (sf_valid_idx_length _ _ Hv). unfold out, dims_at. rewrite !map_length. reflexivity. }
+    assert (HLs : length sidx = length (map (fun q => nth q lhs 0) axes)).
+    { rewrite (sf_valid_idx_length _ _ Hs). unfold dims_at. rewrite !map_length. reflexivity. }
+    unfold assemble.
+    apply (nth_ext _ _ 0 0).
+    + rewrite !map_length, seq_length. reflexivity.
+    + intros k Hk. rewrite map_length, seq_length in Hk.
+      rewrite (nth_map_lt _ (seq 0 r) k 0 0) by (rewrite seq_length; exact Hk).
+      rewrite seq_nth by exact Hk. cbn [Nat.add].
+      rewrite (nth_map_lt (elook _) lhs k 0 0) by exact Hk.
+      destruct (in_dec Nat.eq_dec k kept) as [Hik|Hnk].
+      * destruct (sf_find_pos_in k kept Hik) as [p Hp]. rewrite Hp.
+        rewrite elook_app_l.
+        2:{ rewrite sf_map_fst_combine by exact HLo. unfold out. apply sf_in_map_nth; assumption. }
+        rewrite elook_combine_pos;
+          [|unfold out; apply sf_in_map_nth; assumption|exact HLo].
+        unfold out. rewrite sf_pos_in_map_nth by assumption.
+        unfold pos_in. rewrite Hp. reflexivity.
+      * rewrite (sf_find_pos_notin k kept Hnk).
+        assert (Hia : In k axes).
+        { destruct (in_dec Nat.eq_dec k axes) as [Hi|Hn]; [exact Hi|].
+          exfalso. apply Hnk. apply sf_kept_in. split; assumption. }
+        destruct (sf_find_pos_in k axes Hia) as [p Hp]. rewrite Hp.
+        rewrite elook_app_r.
+        2:{ intros Hc. apply sf_in_combine_fst in Hc. unfold out in Hc.
+            apply sf_in_map_nth in Hc; try assumption. exact (Hnk Hc). }
+        rewrite elook_combine_pos;
+          [|apply sf_in_map_nth; assumption|exact HLs].
+        rewrite sf_pos_in_map_nth by assumption.
+        unfold pos_in. rewrite Hp. reflexivity.
+Qed.
+
+(* boolean form of the sortedness condition *)
+Fixpoint sf_incrb (l : list nat) : bool :=
+  match l with
+  | a :: ((b :: _) as r) => Nat.ltb a b && sf_incrb r
+  | _ => true
+  end.
+
+Lemma sf_incrb_Sorted l : sf_incrb l = true -> Sorted lt l.
+Proof.
+  induction l as [|a l IH]; intros H; [constructor|].
+  destruct l as [|b l]; [constructor; constructor|].
+  cbn [sf_incrb] in H. apply andb_true_iff in H. destruct H as [H1 H2]. apply Nat.ltb_lt in H1.
+  constructor; [apply IH, H2|constructor; exact H1].
+Qed.
+
+Lemma sf_incrb_sorted l : sf_incrb l = true -> StronglySorted lt l.
+Proof.
+  intros H. apply Sorted_StronglySorted; [intros x y z; apply Nat.lt_trans|apply sf_incrb_Sorted, H].
+Qed.
+
+Corollary sum_axes_is_einsum_b t lhs axes :
+  NoDup lhs -> length lhs = length (tshape t) ->
+  sf_incrb axes = true -> forallb (fun a => Nat.ltb a (length lhs)) axes = true ->
+  sum_axes t axes =
+  Some (einsum_ref [lhs] (map (fun q => nth q lhs 0) (sf_kept (length lhs) axes)) [t]).
+Proof.
+  intros ND HL HS HF. apply sum_axes_is_einsum; [exact ND|exact HL|apply sf_incrb_sorted, HS|].
+  apply Forall_forall. intros a Ha. rewrite forallb_forall in HF. apply Nat.ltb_lt, HF, Ha.
+Qed.
+
+(* ================================================================== *)
+(* PART 4: bounded exhaustive sweeps *)
+
+
+(* ================================================================== *)
+(* BOUNDED, EXHAUSTIVE sweeps (vm_compute + forallb_forall)            *)
+
+(* all strings over `syms` of length <= r *)
+Fixpoint terms_upto (syms : list nat) (r : nat) : list str :=
+  match r with
+  | 0 => [[]]
+  | S r' => [] :: flat_map (fun t => map (fun c => c :: t) syms) (terms_upto syms r')
+  end.
+(* all lists over `vals` of length exactly n *)
+Fixpoint lists_exact (vals : list nat) (n : nat) : list (list nat) :=
+  match n with
+  | 0 => [[]]
+  | S n' => flat_map (fun t => map (fun c => c :: t) vals) (lists_exact vals n')
+  end.
+(* all duplicate-free outputs made of labels that occur in `present` *)
+Definition outs_for (syms : list nat) (present : str) : list str :=
+  filter (fun o => nodupb o && forallb (fun c => memb c present) o) (terms_upto syms (length syms)).
+
+Lemma terms_upto_complete syms r t :
+  length t <= r -> Forall (fun c => In c syms) t -> In t (terms_upto syms r).
+Proof.
+  revert t. induction r as [|r IH]; intros t Hlen Hall.
+  - destruct t; [left; reflexivity | cbn in Hlen; lia].
+  - destruct t as [|c t]; [left; reflexivity|].
+    right. apply in_flat_map. exists t. split.
+    + apply IH; [cbn in Hlen; lia | inversion Hall; assumption].
+    + apply in_map_iff. exists c. split; [reflexivity | inversion Hall; assumption].
+Qed.
+
+Lemma lists_exact_complete vals n t :
+  length t = n -> Forall (fun c => In c vals) t -> In t (lists_exact vals n).
+Proof.
+  revert t. induction n as [|n IH]; intros t Hlen Hall.
+  - destruct t; [left; reflexivity | discriminate].
+  - destruct t as [|c t]; [discriminate|].
+    cbn [lists_exact]. apply in_flat_map. exists t. split.
+    + apply IH; [cbn in Hlen; lia | inversion Hall; assumption].
+    + apply in_map_iff. exists c. split; [reflexivity | inversion Hall; assumption].
+Qed.
+
+Lemma nodupb_true l : NoDup l -> nodupb l = true.
+Proof.
+  induction 1 as [|x l Hx Hnd IH]; [reflexivity|].
+  cbn [nodupb]. rewrite IH, andb_true_r. apply negb_true_iff. apply memb_false. exact Hx.
+Qed.
+
+Lemma NoDup_incl_length_le (l syms : list nat) : NoDup l -> incl l syms -> length l <= length syms.
+Proof. intros Hnd Hincl. apply NoDup_incl_length; assumption. Qed.
+
+Lemma outs_for_complete syms present o :
+  NoDup o -> incl o present -> incl o syms -> In o (outs_for syms present).
+Proof.
+  intros Hnd Hp Hs. unfold outs_for. apply filter_In. split.
+  - apply terms_upto_complete.
+    + apply NoDup_incl_length_le; assumption.
+    + apply Forall_forall. intros c Hc. apply Hs, Hc.
+  - rewrite nodupb_true by assumption. cbn [andb]. apply forallb_forall.
+    intros c Hc. apply memb_In. apply Hp, Hc.
+Qed.
+
+(* the probe entries: a_i = 256^i, b_j = 256^(|a| * j).  If both sides of an equation are
+   bilinear forms  sum_ij c_ij a_i b_j  with natural coefficients c_ij < 256, equality at the
+   probe determines every c_ij (base-256 digits). *)
+Definition PB : Z := 256%Z.
+Definition probe_a (sa : list nat) : tensor :=
+  (sa, map (fun i => Z.pow PB (Z.of_nat i)) (seq 0 (nprod sa))).
+Definition probe_b (sa sb : list nat) : tensor :=
+  (sb, map (fun j => Z.pow PB (Z.of_nat (nprod sa * j))) (seq 0 (nprod sb))).
+(* the shape of a term under a size assignment szs (k-th entry = size of the k-th symbol) *)
+Definition shape_of (syms szs : list nat) (t : str) : list nat :=
+  map (fun c => nth (pos_in c syms) szs 0) t.
+Definition eq2 (ta tb out : str) : str := ta ++ [COMMA] ++ tb ++ [ARROW] ++ out.
+Definition eq1 (ta out : str) : str := ta ++ [ARROW] ++ out.
+
+Definition check2 (syms : list nat) (ta tb out : str) (szs : list nat) : bool :=
+  let a := probe_a (shape_of syms szs ta) in
+  let b := probe_b (shape_of syms szs ta) (shape_of syms szs tb) in
+  eqb (einsum2 (eq2 ta tb out) a b) (Some (einsum_ref [ta; tb] out [a; b])).
+
+Definition sweep2 (syms : list nat) (r : nat) (vals : list nat) : bool :=
+  forallb (fun ta => forallb (fun tb => forallb (fun out => forallb (fun szs => check2 syms ta tb out szs)
+     (lists_exact vals (length syms))) (outs_for syms (ta ++ tb))) (terms_upto syms r)) (terms_upto syms r).
+
+Definition check1 (syms : list nat) (ta out : str) (szs : list nat) : bool :=
+  let a := probe_a (shape_of syms szs ta) in
+  eqb (einsum_single (eq1 ta out) a) (Some (einsum_ref [ta] out [a])).
+Definition sweep1 (syms : list nat) (r : nat) (vals : list nat) : bool :=
+  forallb (fun ta => forallb (fun out => forallb (fun szs => check1 syms ta out szs)
+     (lists_exact vals (length syms))) (outs_for syms ta)) (terms_upto syms r).
+
+(* decidable equality of option tensor reflected *)
+Lemma list_eqb_eq {A} (e : A -> A -> bool) (He : forall x y, e x y = true -> x = y) :
+  forall l1 l2, list_eqb e l1 l2 = true -> l1 = l2.
+Proof.
+  induction l1 as [|x l1 IH]; intros [|y l2] H; cbn in H; try discriminate; [reflexivity|].
+  apply andb_true_iff in H. destruct H as [H1 H2]. f_equal; [apply He, H1 | apply IH, H2].
+Qed.
+Lemma tensor_eqb_eq (t1 t2 : tensor) : eqb t1 t2 = true -> t1 = t2.
+Proof.
+  destruct t1 as [s1 d1], t2 as [s2 d2]. unfold eqb, Eqb_prod. cbn [fst snd]. intros H.
+  apply andb_true_iff in H. destruct H as [H1 H2]. f_equal.
+  - apply (list_eqb_eq Nat.eqb); [intros x y; apply Nat.eqb_eq | exact H1].
+  - apply (list_eqb_eq Z.eqb); [intros x y; apply Z.eqb_eq | exact H2].
+Qed.
+Lemma otensor_eqb_eq (o1 o2 : option tensor) : eqb o1 o2 = true -> o1 = o2.
+Proof.
+  destruct o1 as [t1|], o2 as [t2|]; cbn; intros H; try discriminate; [|reflexivity].
+  f_equal. apply tensor_eqb_eq, H.
+Qed.
+
+Lemma sweep2_sound syms r vals :
+  sweep2 syms r vals = true ->
+  forall ta tb out szs,
+    length ta <= r -> length tb <= r ->
+    Forall (fun c => In c syms) ta -> Forall (fun c => In c syms) tb ->
+    NoDup out -> incl out (ta ++ tb) ->
+    length szs = length syms -> Forall (fun d => In d vals) szs ->
+    let a := probe_a (shape_of syms szs ta) in
+    let b := probe_b (shape_of syms szs ta) (shape_of syms szs tb) in
+    einsum2 (eq2 ta tb out) a b = Some (einsum_ref [ta; tb] out [a; b]).
+Proof.
+  intros Hs ta tb out szs La Lb Fa Fb Hnd Hincl Lz Fz a b.
+  unfold sweep2 in Hs. rewrite forallb_forall in Hs.
+  specialize (Hs ta (terms_upto_complete syms r ta La Fa)). rewrite forallb_forall in Hs.
+  specialize (Hs tb (terms_upto_complete syms r tb Lb Fb)). rewrite forallb_forall in Hs.
+  assert (Ho : In out (outs_for syms (ta ++ tb))).
+  { apply outs_for_complete; [assumption | assumption |].
+    intros c Hc. apply Hincl in Hc. apply in_app_or in Hc.
+    rewrite Forall_forall in Fa, Fb. destruct Hc as [Hc|Hc]; [apply Fa, Hc | apply Fb, Hc]. }
+  specialize (Hs out Ho). rewrite forallb_forall in Hs.
+  specialize (Hs szs (lists_exact_complete vals (length syms) szs Lz Fz)).
+  apply otensor_eqb_eq. exact Hs.
+Qed.
+
+Lemma sweep1_sound syms r vals :
+  sweep1 syms r vals = true ->
+  forall ta out szs,
+    length ta <= r -> Forall (fun c => In c syms) ta ->
+    NoDup out -> incl out ta ->
+    length szs = length syms -> Forall (fun d => In d vals) szs ->
+    let a := probe_a (shape_of syms szs ta) in
+    einsum_single (eq1 ta out) a = Some (einsum_ref [ta] out [a]).
+Proof.
+  intros Hs ta out szs La Fa Hnd Hincl Lz Fz a.
+  unfold sweep1 in Hs. rewrite forallb_forall in Hs.
+  specialize (Hs ta (terms_upto_complete syms r ta La Fa)). rewrite forallb_forall in Hs.
+  assert (Ho : In out (outs_for syms ta)).
+  { apply outs_for_complete; [assumption | assumption |].
+    intros c Hc. apply Hincl in Hc. rewrite Forall_forall in Fa. apply Fa, Hc. }
+  specialize (Hs out Ho). rewrite forallb_forall in Hs.
+  specialize (Hs szs (lists_exact_complete vals (length syms) szs Lz Fz)).
+  apply otensor_eqb_eq. exact Hs.
+Qed.
+
+Lemma sweep2_box_3_3 : sweep2 [4;5;6] 3 [1;2] = true.
+Proof. vm_compute. reflexivity. Qed.
+Lemma sweep2_box_3_2 : sweep2 [4;5;6] 2 [1;2;3] = true.
+Proof. vm_compute. reflexivity. Qed.
+Lemma sweep1_box_3_4 : sweep1 [4;5;6] 4 [1;2;3] = true.
+Proof. vm_compute. reflexivity. Qed.
+
+Theorem einsum2_bounded_3_3 : forall ta tb out szs,
+    length ta <= 3 -> length tb <= 3 ->
+    Forall (fun c => In c [4;5;6]) ta -> Forall (fun c => In c [4;5;6]) tb ->
+    NoDup out -> incl out (ta ++ tb) ->
+    length szs = 3 -> Forall (fun d => In d [1;2]) szs ->
+    let a := probe_a (shape_of [4;5;6] szs ta) in
+    let b := probe_b (shape_of [4;5;6] szs ta) (shape_of [4;5;6] szs tb) in
+    einsum2 (eq2 ta tb out) a b = Some (einsum_ref [ta; tb] out [a; b]).
+Proof. exact (sweep2_sound [4;5;6] 3 [1;2] sweep2_box_3_3). Qed.
+
+Theorem einsum2_bounded_3_2 : forall ta tb out szs,
+    length ta <= 2 -> length tb <= 2 ->
+    Forall (fun c => In c [4;5;6]) ta -> Forall (fun c => In c [4;5;6]) tb ->
+    NoDup out -> incl out (ta ++ tb) ->
+    length szs = 3 -> Forall (fun d => In d [1;2;3]) szs ->
+    let a := probe_a (shape_of [4;5;6] szs ta) in
+    let b := probe_b (shape_of [4;5;6] szs ta) (shape_of [4;5;6] szs tb) in
+    einsum2 (eq2 ta tb out) a b = Some (einsum_ref [ta; tb] out [a; b]).
+Proof. exact (sweep2_sound [4;5;6] 2 [1;2;3] sweep2_box_3_2). Qed.
+
+Theorem einsum1_bounded_3_4 : forall ta out szs,
+    length ta <= 4 -> Forall (fun c => In c [4;5;6]) ta ->
+    NoDup out -> incl out ta ->
+    length szs = 3 -> Forall (fun d => In d [1;2;3]) szs ->
+    let a := probe_a (shape_of [4;5;6] szs ta) in
+    einsum_single (eq1 ta out) a = Some (einsum_ref [ta] out [a]).
+Proof. exact (sweep1_sound [4;5;6] 4 [1;2;3] sweep1_box_3_4). Qed.
+
+
+(* tensordot: every pair of duplicate-free, in-range, equally long axis lists *)
+Definition zs (l : list nat) : list Z := map Z.of_nat l.
+Definition check_td (sa sb xa xb : list nat) : bool :=
+  let a := probe_a sa in
+  let b := probe_b sa sb in
+  if Nat.eqb (length xa) (length xb) && eqb (dims_at sa xa) (dims_at sb xb) then
+    eqb (tensordot (AxPair (zs xa) (zs xb)) a b) (Some (tensordot_ref xa xb a b))
+  else true.
+Definition axes_for (r : nat) : list (list nat) := outs_for (seq 0 r) (seq 0 r).
+Definition sweep_td (r : nat) (vals : list nat) : bool :=
+  forallb (fun sa => forallb (fun sb => forallb (fun xa => forallb (fun xb => check_td sa sb xa xb)
+     (axes_for (length sb))) (axes_for (length sa))) (terms_upto vals r)) (terms_upto vals r).
+
+Definition check_td_int (sa sb : list nat) (n : nat) : bool :=
+  let a := probe_a sa in
+  let b := probe_b sa sb in
+  let xa := seq (length sa - n) n in
+  let xb := seq 0 n in
+  if Nat.leb n (length sa) && Nat.leb n (length sb) && eqb (dims_at sa xa) (dims_at sb xb) then
+    eqb (tensordot (AxInt n) a b) (Some (tensordot_ref xa xb a b))
+  else true.
+Definition sweep_td_int (r : nat) (vals : list nat) : bool :=
+  forallb (fun sa => forallb (fun sb => forallb (fun n => check_td_int sa sb n) (seq 0 (S r)))
+     (terms_upto vals r)) (terms_upto vals r).
+
+Lemma axes_for_complete r x : NoDup x -> Forall (fun j => j < r) x -> In x (axes_for r).
+Proof.
+  intros Hnd Hall. unfold axes_for.
+  assert (Hincl : incl x (seq 0 r)).
+  { intros j Hj. rewrite Forall_forall in Hall. apply in_seq. specialize (Hall j Hj). lia. }
+  apply outs_for_complete; assumption.
+Qed.
+
+Lemma sweep_td_sound r vals :
+  sweep_td r vals = true ->
+  forall sa sb xa xb,
+    length sa <= r -> length sb <= r ->
+    Forall (fun d => In d vals) sa -> Forall (fun d => In d vals) sb ->
+    NoDup xa -> NoDup xb -> Forall (fun j => j < length sa) xa -> Forall (fun j => j < length sb) xb ->
+    length xa = length xb -> dims_at sa xa = dims_at sb xb ->
+    let a := probe_a sa in let b := probe_b sa sb in
+    tensordot (AxPair (zs xa) (zs xb)) a b = Some (tensordot_ref xa xb a b).
+Proof.
+  intros Hs sa sb xa xb La Lb Fa Fb Na Nb Ra Rb Hlen Hd a b.
+  unfold sweep_td in Hs. rewrite forallb_forall in Hs.
+  specialize (Hs sa (terms_upto_complete vals r sa La Fa)). rewrite forallb_forall in Hs.
+  specialize (Hs sb (terms_upto_complete vals r sb Lb Fb)). rewrite forallb_forall in Hs.
+  specialize (Hs xa (axes_for_complete _ xa Na Ra)). rewrite forallb_forall in Hs.
+  specialize (Hs xb (axes_for_complete _ xb Nb Rb)).
+  unfold check_td in Hs. rewrite Hlen, Nat.eqb_refl, Hd in Hs.
+  assert (E : eqb (dims_at sb xb) (dims_at sb xb) = true).
+  { generalize (dims_at sb xb). intros l. induction l as [|x l IH]; [reflexivity|].
+    unfold eqb, Eqb_list in *. cbn [list_eqb]. rewrite IH, andb_true_r. apply Nat.eqb_refl. }
+  rewrite E in Hs. cbn [andb] in Hs. apply otensor_eqb_eq. exact Hs.
+Qed.
+
+Lemma sweep_td_box : sweep_td 3 [1;2] = true.
+Proof. vm_compute. reflexivity. Qed.
+Lemma sweep_td_int_box : sweep_td_int 3 [1;2] = true.
+Proof. vm_compute. reflexivity. Qed.
+
+Theorem tensordot_bounded_3 : forall sa sb xa xb,
+    length sa <= 3 -> length sb <= 3 ->
+    Forall (fun d => In d [1;2]) sa -> Forall (fun d => In d [1;2]) sb ->
+    NoDup xa -> NoDup xb -> Forall (fun j => j < length sa) xa -> Forall (fun j => j < length sb) xb ->
+    length xa = length xb -> dims_at sa xa = dims_at sb xb ->
+    let a := probe_a sa in let b := probe_b sa sb in
+    tensordot (AxPair (zs xa) (zs xb)) a b = Some (tensordot_ref xa xb a b).
+Proof. exact (sweep_td_sound 3 [1;2] sweep_td_box). Qed.
+
+Theorem tensordot_int_bounded_3 : forall sa sb n,
+    In sa (terms_upto [1;2] 3) -> In sb (terms_upto [1;2] 3) -> n <= 3 ->
+    check_td_int sa sb n = true.
+Proof.
+  intros sa sb n Ha Hb Hn. pose proof sweep_td_int_box as Hs.
+  unfold sweep_td_int in Hs. rewrite forallb_forall in Hs. specialize (Hs sa Ha).
+  rewrite forallb_forall in Hs. specialize (Hs sb Hb). rewrite forallb_forall in Hs.
+  apply Hs. apply in_seq. lia.
+Qed.
+
+(* the faithful model of _parse_tensordot_axes_to_matmul mishandles a negative axis of b:
+   axis -1 of a rank-1 array is its axis 0, yet the model (like the code) contracts nothing *)
+Theorem tensordot_negative_axes_refuted :
+  exists a b : tensor,
+    wf_tensor a = true /\ wf_tensor b = true /\
+    tensordot (AxPair [0%Z] [(-1)%Z]) a b <> Some (tensordot_ref [0] [0] a b) /\
+    tensordot (AxPair [0%Z] [0%Z]) a b = Some (tensordot_ref [0] [0] a b).
+Proof.
+  exists ([2], [1%Z; 2%Z]), ([2], [3%Z; 4%Z]).
+  split; [reflexivity|]. split; [reflexivity|]. split; [|vm_compute; reflexivity].
+  vm_compute. intros H. discriminate H.
 Qed.
